@@ -42,7 +42,7 @@ constructor = XPath2Parser.constructor
 @constructor('ENTITY')
 @constructor('anyURI')
 def cast__string_types(self: XPathConstructor, value: ta.AtomicType) -> str | AnyURI:
-    if not isinstance(value, (str, AnyURI, UntypedAtomic)):
+    if self.symbol != 'anyURI' and not isinstance(value, (str, AnyURI, UntypedAtomic)):
         # the value is cast to xs:string first (e.g. 'true' for a boolean, not str(True))
         value = self.string_value(value)
 
